@@ -169,6 +169,10 @@ def run_forked(mod, case):
         except OSError:
             pass
     import re
+    hook = getattr(mod, "sanitizer_alloc_failure", None)
+    if hook is not None and re.search(r"AddressSanitizer: (allocation-size-too-big|out-of-memory|requested allocation size|allocator is out of memory)", tail):
+        # the sanitizer's operator new aborts where the plain build throws std::bad_alloc: the check decides whether that is acceptable here
+        return hook(case, tail)
     m = re.search(r"(SUMMARY: [^\n]*|runtime error: [^\n]*|corrupted[^\n]*|malloc\(\)[^\n]*|free\(\)[^\n]*|double free[^\n]*|terminate called[^\n]*)", tail)
     raise Violation("crash:" + label, "process died (wait status %d, signal %d) %s" % (status, sig, m.group(1) if m else ""),
                     observed=tail, clause="C12-crash")
